@@ -344,10 +344,12 @@ impl NestedTrieDawg {
             }
         }
 
-        // Mark final state as terminal
+        // Mark final state as terminal; a key that is already a member must not be counted again
         if (current_state as usize) < self.states.len() {
-            self.states[current_state as usize].set_terminal(true);
-            self.num_keys += 1;
+            if !self.states[current_state as usize].is_terminal() {
+                self.states[current_state as usize].set_terminal(true);
+                self.num_keys += 1;
+            }
         }
 
         Ok(())
@@ -613,6 +615,11 @@ impl FiniteStateAutomaton for NestedTrieDawg {
 impl Trie for NestedTrieDawg {
     fn insert(&mut self, key: &[u8]) -> Result<StateId> {
         let _old_len = self.num_keys;
+        // An object that was never built has no root state yet (only build_from_keys created one):
+        // without it the first state created below would get id 0 = root_state and loop onto itself.
+        if self.states.is_empty() {
+            self.root_state = self.add_state(0, false, false)?;
+        }
         self.insert_key(key)?;
         
         // Return the state ID for the inserted key
